@@ -985,6 +985,39 @@ fn replay_ffiseq_cmd(a: &HashMap<String, String>) -> i32 {
     if bad > 0 { 1 } else { 0 }
 }
 
+fn replay_serde_cmd(a: &HashMap<String, String>) -> i32 {
+    let path = a.get("in").expect("--in");
+    let out = a.get("out").cloned().unwrap_or_else(|| "/dev/null".into());
+    quiet_panics();
+    let f = BufReader::new(File::open(path).unwrap());
+    let mut ow = BufWriter::new(File::create(&out).unwrap());
+    let (mut n, mut bad) = (0u64, 0u64);
+    for line in f.lines() {
+        let line = line.unwrap();
+        if line.trim().is_empty() {
+            continue;
+        }
+        let v: Value = serde_json::from_str(&line).expect("vector json");
+        if v.get("hdr").is_some() {
+            continue;
+        }
+        n += 1;
+        let (obs, diffs) = match std::panic::catch_unwind(std::panic::AssertUnwindSafe(|| serde_ctx::replay_vector(&v))) {
+            Ok(r) => r,
+            Err(_) => (json!(null), vec!["the harness panicked while replaying the vector".to_string()]),
+        };
+        if !diffs.is_empty() {
+            bad += 1;
+            let src = if v["ev"] == "val" { format!("val ty={} node={}", v["ty"], v["node"]) } else { format!("doc entries={}", v["entries"]) };
+            serde_json::to_writer(&mut ow, &json!({"vector": v, "src": src, "observed": obs, "diffs": diffs})).unwrap();
+            ow.write_all(b"\n").unwrap();
+        }
+    }
+    ow.flush().unwrap();
+    println!("{}", serde_json::to_string(&json!({"vectors": n, "mismatches": bad, "runs": n * 6})).unwrap());
+    if bad > 0 { 1 } else { 0 }
+}
+
 fn replay_types_cmd(a: &HashMap<String, String>) -> i32 {
     let path = a.get("in").expect("--in");
     let out = a.get("out").cloned().unwrap_or_else(|| "/dev/null".into());
@@ -1205,6 +1238,7 @@ fn main() {
         "replay-hist" => replay_hist_cmd(&a),
         "replay-reg" => replay_reg_cmd(&a),
         "replay-types" => replay_types_cmd(&a),
+        "replay-serde" => replay_serde_cmd(&a),
         "replay-lit" => replay_lit_cmd(&a),
         "replay-ffiseq" => replay_ffiseq_cmd(&a),
         "replay-contains" => replay_contains_cmd(&a),
